@@ -1369,12 +1369,16 @@ Hwrite(int32 access_id, int32 length, const void *data)
 
     /* check validity of length and write data.
      NOTE: it is an error to attempt write past the end of the elt */
-    if (length <= 0 || (!access_rec->appendable && length + access_rec->posn > data_len))
+    if (length <= 0 || (!access_rec->appendable && length > data_len - access_rec->posn))
         HGOTO_ERROR(DFE_BADSEEK, FAIL);
 
     /* check if element is appendable and write length exceeds current
        data element length */
-    if (access_rec->appendable && length + access_rec->posn > data_len) { /* yes */
+    if (access_rec->appendable && length > data_len - access_rec->posn) { /* yes */
+
+        /* the new length of the element must be representable */
+        if (access_rec->posn > INT32_MAX - length)
+            HGOTO_ERROR(DFE_BADLEN, FAIL);
 
         /* is data element at end of file?
            hmm. not sure about this condition. */
@@ -1390,6 +1394,10 @@ Hwrite(int32 access_id, int32 length, const void *data)
                 HGOTO_ERROR(DFE_WRITEERROR, FAIL);
             goto done; /* we're finished, wrap things up */
         }              /* end if */
+
+        /* the new end of the element must be a representable file offset */
+        if (access_rec->posn + length >= INT32_MAX - data_off)
+            HGOTO_ERROR(DFE_BADLEN, FAIL);
 
         /* Update the DD with the new length. Note argument of '-2' for
            the offset parameter means not to change the offset in the DD. */
